@@ -67,7 +67,7 @@ def run(tier):
         ev.add(distinct_nontrivial=summ["nontrivial"])
         ev.sample(cases[len(cases) // 2])
 
-        n = 3000 if tier == "quick" else 30000
+        n = 3000 if tier == "quick" else 400000
         tpath = os.path.join(work, "rand.ndjson")
         p = vlib.run_cmd([bins["vh_lib"], "codec-random", str(n), tpath, str(vlib.seed()), copia, os.path.join(work, "cli")], timeout=3000)
         if p.returncode != 0:
